@@ -36,7 +36,7 @@ fn main() {
         "pure" => vharness::pure::run(id, &tier, seed, threads),
         "miri" => {
             if matches!(id, "C10" | "C11" | "C18") {
-                vharness::pure::run(id, "miri", seed, 2)
+                vharness::pure::run(id, "miri", seed, 1)
             } else {
                 vharness::props::miri_slice(id, seed)
             }
